@@ -471,9 +471,11 @@ def run_cli(x, hashseed=None):
         try:
             r = subprocess.run([sys.executable, os.path.join(core.REPO, "src", "processor_sim.py"), "--processor",
                                 os.path.join(td, "p.yaml"), os.path.join(td, "a.asm")],
-                               capture_output=True, text=True, env=env, timeout=120)
+                               capture_output=True, text=True, env=env, timeout=240)
         except subprocess.TimeoutExpired:
-            return {"rc": "timeout", "rows": None, "stdout": "", "stderr": ""}
+            # the library run of the same input finished (a hanging simulation is caught in-process by the watchdog as a C08
+            # observation): a command line that needs more than 4 minutes is a machine-load problem, never a verdict
+            raise core.InfraError("the command-line subprocess did not finish within 240 s")
     rows = [row for row in csv.reader(io.StringIO(r.stdout), dialect="excel-tab")]
     return {"rc": r.returncode, "rows": rows, "stdout": r.stdout, "stderr": r.stderr[-400:], "files": {"yaml": y, "asm": text}}
 
